@@ -92,7 +92,7 @@ pub fn replay(path: &str) -> i32 {
         id: id.clone(),
         tier,
         seed,
-        profile: crate::PROFILE,
+        profile: *crate::PROFILE,
         threads: std::thread::available_parallelism().map(|n| n.get()).unwrap_or(8),
         // cell-structured statistical properties: restrict the re-run to the cell named in the signature
         only: {
@@ -133,8 +133,16 @@ pub fn replay(path: &str) -> i32 {
     let mut rep = (p.run)(&ctx);
     crate::infra::drain_escaped_panics(&ctx.id, &mut rep);
     if p.dbg_part && !ctx.is_dbg() {
-        if let Ok(r) = crate::run_dbg_sub(&ctx) {
-            rep.merge(r);
+        for prof in crate::SUB_PROFILES {
+            // a witness tagged with a profile only needs that profile's sub-run
+            if let Some(w) = v["witness"]["profile"].as_str() {
+                if w != prof {
+                    continue;
+                }
+            }
+            if let Ok(r) = crate::run_sub(&ctx, prof) {
+                rep.merge(r);
+            }
         }
     }
     if let Some(it) = ctx.only_item {
